@@ -1,5 +1,6 @@
 import Proofs.C01.CapstoneLawful
 import Proofs.C01.CapstoneLadders
+import Proofs.C01.CapstoneCofactor
 /-
 C01 capstone, part 3: the hypotheses are satisfiable.  A miniature secp256k1: `y² = x³ + 7` over `F₄₃`
 (`43 ≡ 3 mod 4`), 31 points (prime), generator `(2, 12)`.  `CurveOk 43 toyC` is PROVED (the order of the
@@ -58,5 +59,45 @@ example : absJ 43 toyC.toCurveGroup (7, 19, 14) = (22 : ℤ) • absJ 43 toyC.to
   (multRegularWindow_ec (p := 43) rfl (torsionSub 43 toyC.toCurveGroup 31)
     (noTwoTorsionIn_torsionSub 31 (by decide)) 5 22 3 (2, 12, 1) (7, 19, 14) toyC_G_valid
     (by rw [mem_torsionSub, ← toyC_absA_G]; exact toyC_order) (by decide +kernel)).2
+
+/-- every solution of `y² = x³ + 7` over `F₄₃` is killed by 31: run the PROVED double-and-add on all 43² pairs (kernel) -/
+theorem toy_all_points_Z : ∀ x y : ZMod 43, y ^ 2 = x ^ 3 + 7 →
+    (multJac toyC.toCurveGroup 31 ((x.val : ℤ), (y.val : ℤ), 1)).2.2 = 0 := by decide +kernel
+
+/-- **cofactor one on the toy curve, PROVED**: every point of `y² = x³ + 7` over `F₄₃` has order dividing `n = 31` -/
+theorem toy_hcof : ∀ g : Pt 43 toyC.toCurveGroup, toyC.n • g = 0 := by
+  intro g
+  rcases g with _ | ⟨x, y, h⟩
+  · exact zsmul_zero _
+  · have heq : y ^ 2 = x ^ 3 + 7 := by
+      have := h.1
+      rw [aff_equation_iff] at this
+      simpa [toyC] using this
+    have hz := toy_all_points_Z x y heq
+    have hcx : (((x.val : ℕ) : ℤ) : ZMod 43) = x := by simp
+    have hcy : (((y.val : ℕ) : ℤ) : ZMod 43) = y := by simp
+    have e : castJ 43 ((x.val : ℤ), (y.val : ℤ), 1) = ![x, y, 1] := by simp [castJ, hcx, hcy]
+    have hnsJ : (curveOf 43 toyC.toCurveGroup).Nonsingular (castJ 43 ((x.val : ℤ), (y.val : ℤ), 1)) := by
+      rw [e]; exact (Jacobian.nonsingular_some ..).mpr h
+    have hJ : JValid 43 toyC.toCurveGroup ((x.val : ℤ), (y.val : ℤ), 1) :=
+      ⟨fun h0 => absurd (by simp at h0) (one_ne_zero (α := ZMod 43)), fun _ => hnsJ⟩
+    have habs : absJ 43 toyC.toCurveGroup ((x.val : ℤ), (y.val : ℤ), 1) = Affine.Point.some x y h := by
+      rw [absJ]
+      have := Jacobian.Point.toAffine_some (W := curveOf 43 toyC.toCurveGroup) (X := x) (Y := y) ((Jacobian.nonsingular_some ..).mpr h)
+      rw [e]; exact this
+    have hm := multJac_refines (p := 43) (c := toyC.toCurveGroup) rfl 31 _ hJ
+    rw [absJ_of_Z_eq_zero hz, habs] at hm
+    show (31 : ℤ) • Affine.Point.some x y h = 0
+    rw [← natCast_zsmul] at hm
+    exact hm.symm
+
+/-- the discriminant of the toy curve is non-zero -/
+theorem toy_delta : (curveOf 43 toyC.toCurveGroup).toAffine.Δ ≠ 0 :=
+  delta_ne_zero_of_a_zero (C := toyC) rfl (by decide)
+
+/-- **a fully discharged cofactor-one instance**: on the toy curve the lawful carrier and the raw `Btc.EC.ops toyC`
+run alike (`lift_x` included), no hypothesis left -/
+theorem toy_opsHom : OpsHom (opsSub toyOk) (EC.ops toyC) (Subtype.val : SubPt 43 toyC → Point) :=
+  opsSub_hom toyOk (by decide) toy_hcof toy_delta
 
 end Btc.C01.Toy
